@@ -90,14 +90,19 @@ def closure_body(op, x, y, value=False):
     ok, ovf, dz = [], [], ["assert!(false);"]
     ok.append("assert!(vk_valid(&r));")
     if op in ("plus", "minus", "multiply"):
+        # SAT solvers cannot see that a multiplier is commutative: write the reference product with its operands in the
+        # order the implementation uses (the float operand first, SINGLE before DOUBLE, INTEGER before LONG)
+        l, r = "a", "b"
+        if op == "multiply" and "SDIL".index(y) < "SDIL".index(x):
+            l, r = "b", "a"
         if is_int(x) and is_int(y):
             lo, hi = RANGE[big]
-            pre += "let exact: i64 = (a as i64) %s (b as i64);\n" % sym
+            pre += "let exact: i64 = (%s as i64) %s (%s as i64);\n" % (l, sym, r)
             ok.append("assert!(vk_tag(&r) == %d);" % TAG[big])
             ok.append("assert!(vk_int(&r) == exact);")
             ovf.append("assert!(exact < %s || exact > %s);" % (lo, hi))
         else:
-            pre += "let ieee = (a as %s) %s (b as %s);\n" % (fl, sym, fl)
+            pre += "let ieee = (%s as %s) %s (%s as %s);\n" % (l, fl, sym, r, fl)
             ok.append("assert!(vk_tag(&r) == %d);" % TAG[big])
             ovf.append("assert!(!ieee.is_finite());")
     elif op == "divide":
